@@ -244,4 +244,117 @@ theorem numeratorKept_same_unit {db : Db} {small : Rat} (hs : 0 ≤ small) (b : 
   subst ha; subst hz
   simpa using fractionOfNumber_intCast hs b.v.frac.num
 
+/-! ### sessions: the pool is static and the `_hash` memo stays consistent with it -/
+
+theorem memoGet_mem {m : List (Nat × QKey)} {id : Nat} {k : QKey} (h : memoGet m id = some k) :
+    (id, k) ∈ m := by
+  induction m with
+  | nil => simp [memoGet] at h
+  | cons e m ih =>
+    obtain ⟨i, k'⟩ := e
+    unfold memoGet at h
+    split at h
+    · rename_i hi
+      have hi' : i = id := by simpa using hi
+      cases h
+      simp [hi']
+    · exact List.mem_cons_of_mem _ (ih h)
+
+/-- every memoised `_hash` is the key of the content of every pooled holder of that Quantity object -/
+def Session.Consistent (s : Session) : Prop :=
+  ∀ id k, (id, k) ∈ s.memo → ∀ p ∈ s.pool, ∀ q, p.obj.heldQty = some q → p.qid = id → k = q.key
+
+/-- the invariant of a history: a well-formed pool and a consistent memo -/
+def Session.Inv (s : Session) : Prop := poolWF s.pool = true ∧ s.Consistent
+
+theorem Session.fresh_inv {pool : List PObj} (h : poolWF pool = true) : (Session.fresh pool).Inv :=
+  ⟨h, by intro id k hk; simp [Session.fresh] at hk⟩
+
+theorem poolWF_compatible {pool : List PObj} (h : poolWF pool = true) {a b : PObj} (ha : a ∈ pool)
+    (hb : b ∈ pool) : a.compatible b = true := by
+  unfold poolWF at h
+  rw [List.all_eq_true] at h
+  have h1 := h a ha
+  rw [List.all_eq_true] at h1
+  exact h1 b hb
+
+theorem PObj.compatible_obj {a b : PObj} (h : a.compatible b = true) (ho : a.oid = b.oid) : a.obj = b.obj := by
+  unfold PObj.compatible at h
+  simp only [Bool.and_eq_true, Bool.or_eq_true, bne_iff_ne, ne_eq, beq_iff_eq] at h
+  rcases h.1 with h1 | h1
+  · exact absurd ho h1
+  · exact h1
+
+theorem PObj.compatible_qty {a b : PObj} (h : a.compatible b = true) {qa qb : Qty}
+    (ha : a.obj.heldQty = some qa) (hb : b.obj.heldQty = some qb) (hq : a.qid = b.qid) : qa = qb := by
+  unfold PObj.compatible at h
+  rw [ha, hb] at h
+  simp only [Bool.and_eq_true, Bool.or_eq_true, bne_iff_ne, ne_eq, beq_iff_eq] at h
+  rcases h.2 with h1 | h1
+  · exact absurd hq h1
+  · exact h1
+
+theorem Session.qtyHash_pool (s : Session) (id : Nat) (q : Qty) : (s.qtyHash id q).2.pool = s.pool := by
+  unfold Session.qtyHash
+  split <;> rfl
+
+/-- hashing the Quantity object held by a pooled object returns the key of its content, memo or not,
+and keeps the invariant -/
+theorem Session.qtyHash_spec {s : Session} (h : s.Inv) {p : PObj} (hp : p ∈ s.pool) {q : Qty}
+    (hq : p.obj.heldQty = some q) : (s.qtyHash p.qid q).1 = q.key ∧ (s.qtyHash p.qid q).2.Inv := by
+  unfold Session.qtyHash
+  cases hm : memoGet s.memo p.qid with
+  | some k => exact ⟨h.2 _ _ (memoGet_mem hm) p hp q hq rfl, h⟩
+  | none =>
+    refine ⟨rfl, h.1, ?_⟩
+    intro id k hk p' hp' q' hq' hid
+    simp only [List.mem_cons, Prod.mk.injEq] at hk
+    rcases hk with ⟨h1, h2⟩ | hk
+    · have : q' = q := PObj.compatible_qty (poolWF_compatible h.1 hp' hp) hq' hq (by rw [hid, h1])
+      rw [h2, this]
+    · exact h.2 id k hk p' hp' q' hq' hid
+
+theorem Session.hash_pool (s : Session) (i : Nat) : (s.hash i).2.pool = s.pool := by
+  unfold Session.hash
+  cases hp : s.pool[i]? with
+  | none => rfl
+  | some p =>
+    dsimp only
+    cases p.obj.cls.hashSlot <;> (try rfl) <;>
+      (cases p.obj <;> first | rfl | exact Session.qtyHash_pool _ _ _)
+
+theorem Session.hash_spec {s : Session} (h : s.Inv) (i : Nat) :
+    (s.hash i).1 = s.pureHash i ∧ (s.hash i).2.Inv := by
+  unfold Session.hash Session.pureHash
+  cases hp : s.pool[i]? with
+  | none => exact ⟨rfl, h⟩
+  | some p =>
+    have hmem : p ∈ s.pool := List.mem_of_getElem? hp
+    dsimp only
+    unfold pyHash
+    cases hs : p.obj.cls.hashSlot <;> dsimp only <;> (try exact ⟨rfl, h⟩) <;>
+      (cases ho : p.obj <;> dsimp only <;> (try exact ⟨rfl, h⟩) <;>
+        (rename_i q
+         have hq : p.obj.heldQty = some q := by rw [ho]; rfl
+         obtain ⟨h1, h2⟩ := Session.qtyHash_spec h hmem hq
+         exact ⟨by rw [h1]; rfl, h2⟩))
+
+theorem Session.step_pool (s : Session) (op : StirOp) : (s.step op).pool = s.pool := by
+  cases op <;> simp [Session.step, Session.hash_pool]
+
+theorem Session.step_inv {s : Session} (h : s.Inv) (op : StirOp) : (s.step op).Inv := by
+  cases op <;> simp only [Session.step] <;> first | exact h | exact (Session.hash_spec h _).2
+
+theorem Session.run_pool (s : Session) (ops : List StirOp) : (s.run ops).pool = s.pool := by
+  unfold Session.run
+  induction ops generalizing s with
+  | nil => rfl
+  | cons op ops ih => rw [List.foldl_cons, ih, Session.step_pool]
+
+theorem Session.run_inv {s : Session} (h : s.Inv) (ops : List StirOp) : (s.run ops).Inv := by
+  unfold Session.run
+  induction ops generalizing s with
+  | nil => exact h
+  | cons op ops ih => rw [List.foldl_cons]; exact ih (Session.step_inv h op)
+
 end Barril
